@@ -18,6 +18,7 @@ structure Inv (O : TrieOps T) (s : St T) : Prop where
   recs : ∀ h, h < s.chain.length → ∃ w, kvGet s.m.store (rootKey h) =
     some (encRec { index := h, root := O.rootOf (trieAt O.M (s.chain.take (h + 1))), wit := w })
   above : ∀ h, s.chain.length ≤ h → h < 2 ^ 32 → kvGet s.m.store (rootKey h) = none
+  cur0 : s.chain = [] → s.m.currentLocal = List.replicate 32 0
 
 theorem trieAt_snoc (M : AuthMap T) (bs : List (List Change)) (b : List Change) :
     trieAt M (bs ++ [b]) = M.putBatch (trieAt M bs) b := by
@@ -37,11 +38,12 @@ theorem inv_genesis (O : TrieOps T) : Inv O (genesis O) where
   cur := by simp [genesis]
   recs := by intro h hh; simp [genesis] at hh
   above := by intro h _ _; rfl
+  cur0 := fun _ => rfl
 
 theorem inv_block (O : TrieOps T) (s : St T) (hi : Inv O s) (b : List Change) (hlt : s.chain.length < 2 ^ 32) :
     Inv O { m := storeBlock O s.m s.chain.length b, chain := s.chain ++ [b] } := by
   have hmpt : O.M.putBatch s.m.mpt b = trieAt O.M (s.chain ++ [b]) := by rw [trieAt_snoc, hi.mpt]
-  refine ⟨?_, ?_, ?_, ?_, ?_, ?_⟩
+  refine ⟨?_, ?_, ?_, ?_, ?_, ?_, fun h0 => by simp at h0⟩
   · exact keysNodup_kvPut _ _ _ (keysNodup_kvPut _ _ _ hi.nodup)
   · simp only [List.length_append, List.length_singleton]; omega
   · simp only [storeBlock, addMPTBatch, hmpt]
@@ -90,7 +92,7 @@ theorem inv_restart (O : TrieOps T) (hre : ∀ t, O.reopen (O.rootOf t) = t) (h3
       rw [hi.above 0 (by simp [hne]) (by decide)]; rfl
     simp only [hne, List.length_nil, Nat.zero_sub, hg, if_true, Option.some.injEq] at hm
     subst hm
-    exact ⟨hi.nodup, hi.len, hi.mpt, fun h => absurd hne h, hi.recs, hi.above⟩
+    exact ⟨hi.nodup, hi.len, hi.mpt, fun h => absurd hne h, hi.recs, hi.above, fun _ => rfl⟩
   · have hpos : 0 < s.chain.length := List.length_pos_iff.mpr hne
     obtain ⟨w, hw⟩ := getStateRoot_of_inv O h32 s hi (s.chain.length - 1) (by omega)
     have ht : s.chain.take (s.chain.length - 1 + 1) = s.chain := by
@@ -98,13 +100,13 @@ theorem inv_restart (O : TrieOps T) (hre : ∀ t, O.reopen (O.rootOf t) = t) (h3
     rw [hw, ht] at hm
     simp only [Option.some.injEq] at hm
     subst hm
-    refine ⟨hi.nodup, hi.len, ?_, ?_, hi.recs, hi.above⟩
+    refine ⟨hi.nodup, hi.len, ?_, ?_, hi.recs, hi.above, fun h0 => absurd h0 hne⟩
     · exact hre _
     · intro _; exact ⟨rfl, rfl⟩
 
 theorem inv_reset (O : TrieOps T) (hre : ∀ t, O.reopen (O.rootOf t) = t) (h32 : ∀ t, (O.rootOf t).length = 32)
-    (s : St T) (hi : Inv O s) (h : Nat) (v : Option Nat) (hh : h < s.chain.length)
-    (m' : Module T) (hm : resetState O s.m h v = some m') :
+    (s : St T) (hi : Inv O s) (h : Nat) (hh : h < s.chain.length)
+    (m' : Module T) (hm : resetState O s.m h = some m') :
     Inv O { m := m', chain := s.chain.take (h + 1) } := by
   have hlen32 : h < 2 ^ 32 := by have := hi.len; omega
   obtain ⟨w, hw⟩ := getStateRoot_of_inv O h32 s hi h hh
@@ -186,7 +188,7 @@ theorem inv_reset (O : TrieOps T) (hre : ∀ t, O.reopen (O.rootOf t) = t) (h32 
       Inv O { m := { store := c3, mpt := O.reopen sr.root, currentLocal := sr.root, localHeight := sr.index },
               chain := s.chain.take (h + 1) } := by
     intro c3 hg3 hn3
-    refine ⟨hn3, ?_, ?_, ?_, ?_, ?_⟩
+    refine ⟨hn3, ?_, ?_, ?_, ?_, ?_, fun h0 => by have := congrArg List.length h0; rw [hlen'] at this; simp at this⟩
     · rw [hlen']; omega
     · simp only [← hsr]; exact hre _
     · intro _
@@ -217,13 +219,31 @@ theorem inv_reset (O : TrieOps T) (hre : ∀ t, O.reopen (O.rootOf t) = t) (h32 
       exact hg2_high h' (by omega) h32'
   subst hm
   subst hsr
-  cases v with
+  cases findValidated c2 h with
   | some x =>
     exact fin (kvPut c2 validatedKey (le32 x))
       (fun h' => by simp only [kvGet_kvPut, rootKey_ne_validated, if_false]) (keysNodup_kvPut _ _ _ hn2)
   | none =>
     exact fin (kvDel c2 validatedKey)
       (fun h' => by simp only [kvGet_kvDel, rootKey_ne_validated, if_false]) (keysNodup_kvDel _ _ hn2)
+
+/-- a block whose batch was applied and that is then not stored: `DropMPTBatch` reloads the trie of the
+current local root — the trie of the chain again. -/
+theorem inv_failed (O : TrieOps T) (hre : ∀ t, O.reopen (O.rootOf t) = t) (s : St T) (hi : Inv O s) :
+    Inv O { s with m := dropMPTBatch O s.m } := by
+  refine ⟨hi.nodup, hi.len, ?_, hi.cur, hi.recs, hi.above, hi.cur0⟩
+  show (if s.m.currentLocal = List.replicate 32 0 then O.M.empty else O.reopen s.m.currentLocal) = trieAt O.M s.chain
+  by_cases hne : s.chain = []
+  · rw [if_pos (hi.cur0 hne), hne]; rfl
+  · obtain ⟨hc, _⟩ := hi.cur hne
+    split
+    · rename_i hz
+      -- the chain's root is the zero hash = the root of the empty trie: the tries coincide
+      have : O.rootOf (trieAt O.M s.chain) = O.rootOf O.M.empty := by rw [← hc, hz, O.rootOf_empty]
+      have h2 := congrArg O.reopen this
+      rw [hre, hre] at h2
+      exact h2.symm
+    · rw [hc]; exact hre _
 
 theorem inv_validated (O : TrieOps T) (h32 : ∀ t, (O.rootOf t).length = 32) (s : St T) (hi : Inv O s)
     (sr : Rec) (v : Bool) (hidx : sr.index < 2 ^ 32) :
@@ -256,7 +276,7 @@ theorem inv_validated (O : TrieOps T) (h32 : ∀ t, (O.rootOf t).length = 32) (s
           have hsr : sr.root = O.rootOf (trieAt O.M (s.chain.take (sr.index + 1))) := by
             have : loc.root = sr.root := by simpa using hroot
             rw [← this, ← hg]
-          refine ⟨keysNodup_kvPut _ _ _ (keysNodup_kvPut _ _ _ hi.nodup), hi.len, hi.mpt, hi.cur, ?_, ?_⟩
+          refine ⟨keysNodup_kvPut _ _ _ (keysNodup_kvPut _ _ _ hi.nodup), hi.len, hi.mpt, hi.cur, ?_, ?_, hi.cur0⟩
           · intro h hh
             have hh' : h < s.chain.length := hh
             show ∃ w, kvGet (kvPut (kvPut s.m.store (rootKey sr.index) (encRec sr)) validatedKey (le32 sr.index)) (rootKey h) = _
